@@ -695,8 +695,7 @@ theorem LineOK_heapNumbersZ (pad : Nat) (a b : Int) (c d : Nat) : LineOK (heapNu
 
 theorem LineOK_heapKind (k : HeapKind) : LineOK k.print := by cases k <;> decide
 
-theorem parseHeap_printHeap (scale : ScaleFn) (d : HeapDoc) (h : d.wf = true) :
-    parseHeap scale (printHeap d) = .ok (expectedHeap scale d) := by
+theorem HeapDoc.lines_ok (d : HeapDoc) (h : d.wf = true) : ∀ l ∈ d.lines, LineOK l := by
   simp only [HeapDoc.wf, Bool.and_eq_true, List.all_eq_true, decide_eq_true_eq] at h
   obtain ⟨⟨⟨⟨⟨⟨⟨hrecs, hpost⟩, hrate⟩, _⟩, _⟩, _⟩, _⟩, hmap⟩ := h
   have hmap' : ∀ m, d.map = some m → m.wf = true := by
@@ -709,35 +708,52 @@ theorem parseHeap_printHeap (scale : ScaleFn) (d : HeapDoc) (h : d.wf = true) :
     · exact LineOK_sentinelMappedLibraries
   have hsentS : isMemoryMapSentinel d.sentinel = true := by
     rcases hsent with h | h <;> rw [h] <;> decide
-  have hlines : splitLines (printHeap d) = d.lines := by
-    apply splitLines_unlines
-    intro l hl
-    simp only [HeapDoc.lines, List.mem_append, List.mem_singleton, List.mem_flatMap] at hl
-    rcases hl with ((hl | ⟨r, hr, hl⟩) | hl) | hl
+  intro l hl
+  simp only [HeapDoc.lines, List.mem_append, List.mem_singleton, List.mem_flatMap] at hl
+  rcases hl with ((hl | ⟨r, hr, hl⟩) | hl) | hl
+  · subst hl
+    have h1 : LineOK (asc "heap profile: ") := by decide
+    have h2 : LineOK (asc " @ ") := by decide
+    have h3 : LineOK (match d.rate with | some r => if d.kind.isHeap then 47 :: dec r else [] | none => []) := by
+      cases d.rate with
+      | none => exact LineOK_nil
+      | some r =>
+        cases d.kind.isHeap with
+        | false => exact LineOK_nil
+        | true => exact LineOK_cons (by decide) (LineOK_dec r)
+    simp only [HeapDoc.headerLine]
+    lineok
+    exact ⟨⟨⟨⟨h1, LineOK_heapNumbers _ _ _ _ _⟩, h2⟩, LineOK_heapKind _⟩, h3⟩
+  · have hw := hrecs r hr
+    simp only [HeapRec.wf, Bool.and_eq_true, List.all_eq_true] at hw
+    rcases hl with hl | hl
+    · exact LineOK_fillers (List.all_eq_true.2 hw.1.1.1.1.1.1.1) l hl
     · subst hl
-      have h1 : LineOK (asc "heap profile: ") := by decide
-      have h2 : LineOK (asc " @ ") := by decide
-      have h3 : LineOK (match d.rate with | some r => if d.kind.isHeap then 47 :: dec r else [] | none => []) := by
-        cases d.rate with
-        | none => exact LineOK_nil
-        | some r =>
-          cases d.kind.isHeap with
-          | false => exact LineOK_nil
-          | true => exact LineOK_cons (by decide) (LineOK_dec r)
-      simp only [HeapDoc.headerLine]
+      have hlit : LineOK (asc " @") := by decide
+      simp only [HeapRec.print]
       lineok
-      exact ⟨⟨⟨⟨h1, LineOK_heapNumbers _ _ _ _ _⟩, h2⟩, LineOK_heapKind _⟩, h3⟩
-    · have hw := hrecs r hr
-      simp only [HeapRec.wf, Bool.and_eq_true, List.all_eq_true] at hw
-      rcases hl with hl | hl
-      · exact LineOK_fillers (List.all_eq_true.2 hw.1.1.1.1.1.1.1) l hl
-      · subst hl
-        have hlit : LineOK (asc " @") := by decide
-        simp only [HeapRec.print]
-        lineok
-        exact ⟨LineOK_heapNumbersZ _ _ _ _ _, hlit⟩
-    · exact LineOK_fillers (List.all_eq_true.2 hpost) l hl
-    · exact LineOK_tailLines hsentOK hmap' l hl
+      exact ⟨LineOK_heapNumbersZ _ _ _ _ _, hlit⟩
+  · exact LineOK_fillers (List.all_eq_true.2 hpost) l hl
+  · exact LineOK_tailLines hsentOK hmap' l hl
+
+theorem splitLines_printHeap (d : HeapDoc) (h : d.wf = true) : splitLines (printHeap d) = d.lines :=
+  splitLines_unlines _ (d.lines_ok h)
+
+theorem parseHeap_printHeap (scale : ScaleFn) (d : HeapDoc) (h : d.wf = true) :
+    parseHeap scale (printHeap d) = .ok (expectedHeap scale d) := by
+  have hlines := splitLines_printHeap d h
+  simp only [HeapDoc.wf, Bool.and_eq_true, List.all_eq_true, decide_eq_true_eq] at h
+  obtain ⟨⟨⟨⟨⟨⟨⟨hrecs, hpost⟩, hrate⟩, _⟩, _⟩, _⟩, _⟩, hmap⟩ := h
+  have hmap' : ∀ m, d.map = some m → m.wf = true := by
+    intro m hm; rw [hm] at hmap; exact hmap
+  have hsent : d.sentinel = sentinelMemoryMap ∨ d.sentinel = sentinelMappedLibraries := by
+    unfold HeapDoc.sentinel; cases d.libs <;> simp
+  have hsentOK : LineOK d.sentinel := by
+    rcases hsent with h | h <;> rw [h]
+    · exact LineOK_sentinelMemoryMap
+    · exact LineOK_sentinelMappedLibraries
+  have hsentS : isMemoryMapSentinel d.sentinel = true := by
+    rcases hsent with h | h <;> rw [h] <;> decide
   unfold parseHeap
   rw [hlines]
   unfold HeapDoc.lines
